@@ -348,6 +348,7 @@ func (c *Cache) writeDump(w io.Writer) (int, error) {
 	gw.Name = dumpHeader
 
 	block := new(CacheDumpBlock)
+	blockBytes := 0 // upper bound of the marshalled size of block
 	writeBlock := func() error {
 		b, err := proto.Marshal(block)
 		if err != nil {
@@ -367,6 +368,7 @@ func (c *Cache) writeDump(w io.Writer) (int, error) {
 
 		en += len(block.GetEntries())
 		block.Reset()
+		blockBytes = 0
 		return nil
 	}
 
@@ -386,7 +388,16 @@ func (c *Cache) writeDump(w io.Writer) (int, error) {
 			MsgStoredTime:       v.storedTime.Unix(),
 			Msg:                 msg,
 		}
+		// readDump refuses blocks longer than dumpMaximumBlockLength. Start
+		// a new block rather than growing this one past that limit.
+		es := proto.Size(e) + 16 // entry plus its field tag and length prefix
+		if len(block.Entries) > 0 && blockBytes+es > dumpMaximumBlockLength {
+			if err := writeBlock(); err != nil {
+				return err
+			}
+		}
 		block.Entries = append(block.Entries, e)
+		blockBytes += es
 
 		// Block is big enough for a write operation.
 		if len(block.Entries) >= dumpBlockSize {
